@@ -28,11 +28,12 @@ void set_epoch(Epoch e);
 
 struct Counters {
     uint64_t mallocs[2] = {0, 0}, frees[2] = {0, 0}, reallocs = 0, free_null[2] = {0, 0};
-    uint64_t fail_fired = 0, fail_on_realloc = 0, realloc_moved = 0, realloc_inplace = 0, bytes = 0;
+    uint64_t fail_fired = 0, fail_on_realloc = 0, realloc_moved = 0, realloc_inplace = 0, bytes = 0, reused = 0;
 };
 
 void init();                              // once per process
-void reset_run(unsigned char fill, ReallocMode m);  // new run: empty ledger, fresh arena
+void reset_run(unsigned char fill, ReallocMode m, bool reuse = false);  // new run: empty ledger, fresh arena; reuse: the custom allocator
+                                                                       // hands a released block to the next request of the same size
 void begin_step();                        // resets the per-step request counter
 void arm_fail(long k);                    // k-th request of the current step returns NULL (0: off)
 long requests_in_step();                  // allocation requests (malloc/realloc) since begin_step
